@@ -100,6 +100,11 @@ def cases(rng, tier):
         prof = 'release' if i % 5 == 4 else 'debug'
         kind = 'split' if len(roots) == deg(red(f, p)) and roots else 'rootless' if not roots else 'mixed'
         out.append(roots_case(rng, f, p, 'planted-%s-%s' % (kind, 'pbig' if p > 2 ** 32 else 'pmid' if p > 13 else 'psmall'), roots, profile=prof))
+    # ---- primes next to the machine-word boundaries 2^31, 2^32, 2^63, 2^64
+    for i, pw in enumerate([2147483647, 4294967291, 4294967311, 9223372036854775783, 18446744073709551557] * (2 if not th else 8)):
+        f, roots = planted(rng, pw, 4)
+        kind = 'split' if len(roots) == deg(red(f, pw)) and roots else 'rootless' if not roots else 'mixed'
+        out.append(roots_case(rng, f, pw, 'planted-%s-p-word-boundary' % kind, roots, profile='release' if i % 2 else 'debug'))
     # ---- scripted first draw
     for i in range(400 if th else 90):
         p = primes[2 + i % (len(primes) - 2)]
